@@ -8,6 +8,8 @@ pub mod c13;
 pub mod c14;
 pub mod c16;
 pub mod c17;
+pub mod c18;
+pub mod c19;
 pub mod c20;
 pub mod dump;
 pub mod ind;
